@@ -186,8 +186,59 @@ pub struct ExploreCfg {
     pub stop_on_violation: bool,
 }
 
+/// Runs `prefix` twice and compares what the two executions did at every decision (thread chosen,
+/// label, enabled set), what they observed and what the oracle said. A difference means the harness
+/// does not own all nondeterminism: a machinery error, never a verdict. Returns the decisions.
+fn determinism_probe(pool: &mut Pool, scenario: &str, prefix: Vec<u8>, stats: &mut Stats) -> Option<Trace> {
+    let job = serde_json::to_vec(&SJob { scenario: scenario.to_string(), prefix: prefix.clone(), record_steps: false }).unwrap();
+    let mut outs: Vec<Outcome> = vec![];
+    pool.run_list(vec![job.clone(), job], |_, o| outs.push(o));
+    let mut sigs = vec![];
+    let mut first = None;
+    for o in outs {
+        match o {
+            Outcome::Ok(b) => match serde_json::from_slice::<SResult>(&b) {
+                Ok(r) => {
+                    let t = r.trace.clone();
+                    sigs.push(format!(
+                        "{:?} | {} | {:?}",
+                        t.as_ref().map(|t| t.decisions.iter().map(|d| format!("{}:{}:{:?}", d.chosen, d.label, d.enabled)).collect::<Vec<_>>()),
+                        r.obs,
+                        r.violations
+                    ));
+                    first = first.or(t);
+                }
+                Err(e) => stats.machinery.push(format!("determinism probe: bad result: {}", e)),
+            },
+            // a crash is judged by the exploration proper
+            _ => return None,
+        }
+    }
+    if sigs.len() == 2 && sigs[0] != sigs[1] {
+        stats.machinery.push(format!("schedule prefix {:?} was executed twice and behaved differently (uncontrolled nondeterminism): {} <> {}", prefix, sigs[0], sigs[1]));
+    }
+    first
+}
+
 /// Explores every schedule of `scenario` with at most `bound` preemptions (lowest cost first).
 pub fn explore(pool: &mut Pool, scenario: &str, cfg: &ExploreCfg, stats: &mut Stats) {
+    // replay-twice check on the default schedule and on the first schedule with a preemption
+    if let Some(t) = determinism_probe(pool, scenario, vec![], stats) {
+        if cfg.bound >= 1 {
+            let alt = t.decisions.iter().enumerate().find_map(|(i, d)| {
+                let other = d.enabled.iter().find(|&&e| e != d.chosen && matches!(d.running, Some(r) if r != e))?;
+                let mut p: Vec<u8> = t.decisions[..i].iter().map(|d| d.chosen).collect();
+                p.push(*other);
+                Some(p)
+            });
+            if let Some(p) = alt {
+                determinism_probe(pool, scenario, p, stats);
+            }
+        }
+    }
+    if !stats.machinery.is_empty() {
+        return;
+    }
     let mut src = Src {
         scenario: scenario.to_string(),
         bound: cfg.bound,
